@@ -359,9 +359,105 @@ func (en *Engine) loopHead(st *State, f *Frame, prev, b *ssa.BasicBlock) ([]*Sta
 	if !isH {
 		return nil, false
 	}
+	if len(st.frames) == 1 && !b.Dominates(prev) {
+		for i, cs := range f.spec.fc.NamedCuts {
+			if cs.Anchor == fmt.Sprintf("at loop#%d", ord) && !st.cutDone[2000+i] {
+				st.cutDone[2000+i] = true
+				en.applyCut(st, f, cs)
+			}
+		}
+	}
 	ls, has := f.spec.fc.Loops[ord]
 	if !has || len(st.frames) != 1 {
 		return nil, false
+	}
+	if len(ls.Invariants) == 0 && len(ls.Asserts) > 0 {
+		// concretely unrolled loop with per-arrival lemmas
+		en.usedLoops[fmt.Sprintf("%s#%d", en.curFunc, ord)] = true
+		idx := -1
+		for i, p := range b.Preds {
+			if p == prev {
+				idx = i
+			}
+		}
+		var vals []Value
+		var phis []*ssa.Phi
+		for _, ins := range b.Instrs {
+			phi, ok := ins.(*ssa.Phi)
+			if !ok {
+				break
+			}
+			phis = append(phis, phi)
+			vals = append(vals, en.get(st, f, phi.Edges[idx]))
+		}
+		saved := map[*ssa.Phi]Value{}
+		for i, p := range phis {
+			if old, ok := f.env[p]; ok {
+				saved[p] = old
+			}
+			f.env[p] = vals[i]
+		}
+		savedBlock := f.block
+		f.block = b
+		sc := *f.spec
+		sc.st = st
+		sc.locals = en.localsResolver(st, f)
+		for i, a := range ls.Asserts {
+			g := sc.evalBool(a.Expr)
+			en.flushSide(st)
+			en.addObl(st, fmt.Sprintf("loop-assert@loop%d", ord), g, fmt.Sprintf("loop#%d lemma #%d at an unrolled arrival: %s", ord, i+1, a.Src), a.Line)
+			st.assume(g)
+		}
+		// naming: give the listed loop variables / cells fresh names (v == old term is kept as a fact)
+		renamed := map[*ssa.Phi]Value{}
+		for _, nm := range ls.Names {
+			if id, ok := nm.Expr.(*ast.Ident); ok {
+				done := false
+				for _, p := range phis {
+					if p.Comment == id.Name {
+						if t, ok := f.env[p].(*Term); ok && t.op != OConst && t.op != OVar {
+							v := FreshVar(f.fn.Name()+"."+id.Name, t.sort)
+							st.assume(Eq(v, t))
+							f.env[p] = v
+							renamed[p] = v
+						}
+						done = true
+					}
+				}
+				if done {
+					continue
+				}
+			}
+			loc := sc.lvalue(nm.Expr)
+			p, ok := loc.(PtrV)
+			if !ok {
+				fail("loop name: unsupported location %s", nm.Src)
+			}
+			cur := en.load(st, p, sc.ptrElemType(p))
+			if t, ok := cur.(*Term); ok && t.op != OConst && t.op != OVar {
+				v := FreshVar(p.R.name+".n", t.sort)
+				st.assume(Eq(v, t))
+				en.store(st, p, v)
+			}
+		}
+		if len(ls.Names) > 0 {
+			sc2 := *f.spec
+			sc2.st = st
+			sc2.locals = en.localsResolver(st, f)
+			for _, a := range ls.Asserts {
+				st.assume(sc2.evalBool(a.Expr))
+			}
+		}
+		f.block = savedBlock
+		if len(renamed) > 0 {
+			// enter the block here so that the renamed phis are kept
+			f.visits[b.Index]++
+			f.prev = prev
+			f.block = b
+			f.pc = 0
+			return nil, true
+		}
+		return nil, false // normal block entry follows (phis are re-evaluated identically)
 	}
 	en.usedLoops[fmt.Sprintf("%s#%d", en.curFunc, ord)] = true
 	back := b.Dominates(prev)
@@ -407,6 +503,7 @@ func (en *Engine) loopHead(st *State, f *Frame, prev, b *ssa.BasicBlock) ([]*Sta
 		}
 	}
 	evalPhis(st, f)
+	f.block = b // names in invariants refer to the loop's own variables
 	sc := *f.spec
 	sc.st = st
 	sc.locals = en.localsResolver(st, f)
@@ -465,16 +562,26 @@ func (en *Engine) loopHeadersOf(fn *ssa.Function) map[int]int {
 // contents of an Alloc with that name.
 func (en *Engine) localsResolver(st *State, f *Frame) func(string) (Value, bool) {
 	return func(name string) (Value, bool) {
-		// phis of the current block named via comment
+		// several phis may carry the same source name (loops reusing i, j): take the one
+		// whose block dominates the current block most closely
 		var best Value
+		var bestBlk *ssa.BasicBlock
 		found := false
 		for v, val := range f.env {
 			switch x := v.(type) {
 			case *ssa.Phi:
-				if x.Comment == name && x.Block() == f.block {
+				if x.Comment != name {
+					continue
+				}
+				blk := x.Block()
+				if blk == f.block {
 					return val, true
 				}
-				if x.Comment == name {
+				if blk.Dominates(f.block) {
+					if bestBlk == nil || bestBlk.Dominates(blk) {
+						best, bestBlk, found = val, blk, true
+					}
+				} else if bestBlk == nil && !found {
 					best, found = val, true
 				}
 			case *ssa.Alloc:
@@ -490,7 +597,16 @@ func (en *Engine) localsResolver(st *State, f *Frame) func(string) (Value, bool)
 				}
 			}
 		}
-		return best, found
+		if found {
+			return best, true
+		}
+		// a named register (DebugRef) of the current function
+		for v, val := range f.env {
+			if nm, ok := en.debugNames[v]; ok && nm == name {
+				return val, true
+			}
+		}
+		return nil, false
 	}
 }
 
